@@ -265,20 +265,10 @@ pub fn all(full: bool) -> Vec<Config> {
         400.0,
         true,
     ));
-    // literal association topologies no shipped record has: one self-associating C site; donor-only + acceptor-only
-    // (single A and single B site type on different components: the closed-form AB branch across components)
-    {
-        use feos::pcsaft::PcSaftRecord;
-        let rec = |m: f64, s: f64, e: f64, mu: Option<f64>, k: Option<f64>, eab: Option<f64>, na: f64, nb: f64, nc: f64, mw: f64| {
-            PureRecord::new(Identifier::default(), mw, PcSaftRecord::new(m, s, e, mu, None, k, eab, Some(na), Some(nb), Some(nc), None, None, None))
-        };
-        let propane = pcsaft_params(&["propane"], "gross2001.json", None).records().0[0].clone();
-        let acid = rec(1.3403, 3.8582, 211.59, None, Some(0.075550), Some(3044.4), 0.0, 0.0, 1.0, 60.05);
-        v.push(cfg("pcsaft_csite_propane", M::PcSaft(PcSaft::new(Arc::new(PcSaftParameters::from_records(vec![acid, propane], None).unwrap()))), 2, 450.0, true));
-        let donor = rec(2.5, 3.4, 270.0, Some(1.0), Some(0.02), Some(1500.0), 1.0, 0.0, 0.0, 119.4);
-        let acceptor = rec(2.8, 3.3, 250.0, Some(2.9), Some(0.03), Some(1700.0), 0.0, 1.0, 0.0, 58.1);
-        v.push(cfg("pcsaft_donor_acceptor", M::PcSaft(PcSaft::new(Arc::new(PcSaftParameters::from_records(vec![donor, acceptor], None).unwrap()))), 2, 500.0, true));
-    }
+    // literal association topologies no shipped record has (see pcsaft_literal)
+    v.push(cfg("pcsaft_csite_propane", M::PcSaft(PcSaft::new(Arc::new(pcsaft_literal("csite_propane")))), 2, 450.0, true));
+    v.push(cfg("pcsaft_donor_acceptor", M::PcSaft(PcSaft::new(Arc::new(pcsaft_literal("donor_acceptor")))), 2, 500.0, true));
+    v.push(cfg("pcsaft_dq_one_molecule", M::PcSaft(PcSaft::new(Arc::new(pcsaft_literal("dipole_quadrupole_one_molecule")))), 1, 450.0, false));
     // gc-PC-SAFT
     v.push(cfg("gcpcsaft_propane", M::GcPcSaft(gc_pcsaft(&["propane"])), 1, 370.0, true));
     v.push(cfg(
@@ -342,6 +332,30 @@ pub fn all(full: bool) -> Vec<Config> {
         v.push(c2);
     }
     v
+}
+
+/// literal PC-SAFT parameter sets with association topologies no shipped record has
+pub fn pcsaft_literal(which: &str) -> PcSaftParameters {
+    use feos::pcsaft::PcSaftRecord;
+    let rec = |m: f64, s: f64, e: f64, mu: Option<f64>, q: Option<f64>, k: Option<f64>, eab: Option<f64>, na: f64, nb: f64, nc: f64, mw: f64| {
+        PureRecord::new(Identifier::default(), mw, PcSaftRecord::new(m, s, e, mu, q, k, eab, Some(na), Some(nb), Some(nc), None, None, None))
+    };
+    let propane = pcsaft_params(&["propane"], "gross2001.json", None).records().0[0].clone();
+    let recs = match which {
+        // one self-associating C site + inert
+        "csite_propane" => vec![rec(1.3403, 3.8582, 211.59, None, None, Some(0.075550), Some(3044.4), 0.0, 0.0, 1.0, 60.05), propane],
+        // donor-only + acceptor-only: single A and single B site type on different components
+        "donor_acceptor" => vec![
+            rec(2.5, 3.4, 270.0, Some(1.0), None, Some(0.02), Some(1500.0), 1.0, 0.0, 0.0, 119.4),
+            rec(2.8, 3.3, 250.0, Some(2.9), None, Some(0.03), Some(1700.0), 0.0, 1.0, 0.0, 58.1),
+        ],
+        // pure quadrupolar fluid with m > 2 (benzene-like), pure dipolar fluid with m > 2
+        "quadrupole_m_gt_2" => vec![rec(2.2463, 3.7852, 296.24, None, Some(5.5907), None, None, 0.0, 0.0, 0.0, 78.11)],
+        "dipole_m_gt_2" => vec![rec(2.7447, 3.2742, 232.99, Some(2.88), None, None, None, 0.0, 0.0, 0.0, 58.08)],
+        "dipole_quadrupole_one_molecule" => vec![rec(2.3, 3.4, 260.0, Some(1.8), Some(3.2), None, None, 0.0, 0.0, 0.0, 70.0)],
+        _ => panic!("unknown literal parameter set {which}"),
+    };
+    PcSaftParameters::from_records(recs, None).unwrap()
 }
 
 /// every number between 150 and 1500 that appears in the ePC-SAFT parameter file (tabulated permittivity temperatures, ...)
